@@ -450,8 +450,8 @@ components:
     Fallback: {description: fb, content: {application/json: {schema: {$ref: '#/components/schemas/E'}}}}
 `
 	return []CorpusEntry{
-		{Name: "resp-matrix", Spec: writeSpec(filepath.Join(dir, "resp-matrix"), "openapi", spec), Group: "response-matrix"},
-		{Name: "resp-trailing", Spec: writeSpec(filepath.Join(dir, "resp-trailing"), "openapi", spec2), Group: "response-matrix"},
+		{Name: "resp-matrix", Spec: writeSpec(filepath.Join(dir, "resp-matrix"), "openapi", spec), Group: "response-matrix", Client: true},
+		{Name: "resp-trailing", Spec: writeSpec(filepath.Join(dir, "resp-trailing"), "openapi", spec2), Group: "response-matrix", Client: true},
 		{Name: "resp-root", Spec: writeSpec(filepath.Join(dir, "resp-root"), "openapi", specHead+`paths:
   /:
     get: {responses: {'200': {description: ok}, '404': {$ref: '#/components/responses/Err'}}}
@@ -464,6 +464,6 @@ components:
   responses:
     Err: {description: err, content: {application/json: {schema: {$ref: '#/components/schemas/E'}}}}
     Err2: {description: err, content: {application/json: {schema: {$ref: '#/components/schemas/E'}}}}
-`), Group: "response-matrix"},
+`), Group: "response-matrix", Client: true},
 	}
 }
